@@ -7,9 +7,10 @@ import (
 )
 
 func symLetter() byte {
+	// 'a'..'d' and 'A'..'D': matching is case sensitive
 	c := nd_u8()
-	vassume(c >= 'a')
-	vassume(c <= 'd')
+	vassume(c|0x20 >= 'a')
+	vassume(c|0x20 <= 'd')
 	return c
 }
 
